@@ -7,7 +7,7 @@ EXPLANATION = (
     "trailing empty rows/cells (styled empties only when aggressive), keeps every value at its coordinates and is idempotent - real table.py/row.py code "
     "on the typed-element layer. "
 )
-OUTSIDE = "set_span/del_span (need real Cell attributes: pending symdom obligations), to_csv/import_from_csv (csv is C), repeats > 2 for transpose, ragged tables"
+OUTSIDE = "set_span with merge=True, spans on tables larger than 3x3, to_csv/import_from_csv (csv is C), repeats > 2 for transpose, ragged tables"
 ASSUMPTIONS = ["rectangular two row-runs x two cell-runs template with an optional run of trailing empty (possibly styled) cells and trailing empty rows"]
 TRUSTED = _T
 _E = ["src/odfdo/table.py:Table.transpose,rstrip,is_empty,optimize_width,_optimize_width_*", "src/odfdo/row.py:Row.rstrip,is_empty,extend_cells,traverse,minimized_width,force_width,last_cell"] + KT_ENCODES[2:3]
@@ -24,3 +24,12 @@ OBLIGATIONS = [
     _o("krstrip_styled_rows", 10, "data rows 1..3 + 1..3 trailing rows of styled empty cells, aggressive flag symbolic"),
     _o("krstrip", 75, "row-runs in 1..3, cell-runs unbounded, trailing empty rows <= 3, trailing empty cells unbounded, styled/aggressive flags symbolic"),
 ]
+
+
+_SENC = ["src/odfdo/table.py:Table.set_span,del_span,get_cell,get_cells,set_cells,set_row,traverse", "src/odfdo/cell.py:Cell.is_spanned,_is_spanned,clone,repeated", "src/odfdo/row.py:Row.set_cells,set_cell,traverse"]
+for _r0 in (1, 2):
+    for _c0 in (1, 2):
+        OBLIGATIONS.append(Obl(name=f"span_area_r{_r0}_c{_c0}", module="h_span", func="span_area", shadow=True, timeout=900, env={"VERIF_R0": str(_r0), "VERIF_C0": str(_c0)},
+                               extra={"r0": _r0, "c0": _c0}, replay="r_h_span:span_area", weight=130, tier="quick" if (_r0, _c0) in ((1, 2), (2, 1)) else "thorough",
+                               bounds=f"3x3 table stored as rows [A x {_r0}, B x {3 - _r0}] of cells [v x {_c0}, w x {3 - _c0}]; every span area of at least 2 cells inside it (symbolic corners): set_span, overlapping set_span, del_span",
+                               encodes=_SENC, stubs=["/verif/shadow/lxml (symdom)"]))
